@@ -223,7 +223,9 @@ CONTRACTS = [
     # the prefix of do_request up to the construction of urllib.request.Request (network I/O dropped)
     Contract(M, '_HttpConnImpl.do_request', name='_HttpConnImpl.do_request/request_id', prop=PROP, spec_globals=G,
              level='top',
-             body_slice={'stop_before': 'request = urllib.request.Request(', 'result': '(url, method, data, headers)'},
+             body_slice={'stop_before': 'urllib.request.Request(',
+                         'result_call': {'func': 'urllib.request.Request', 'pick': ['url', 'method', 'data', 'headers'],
+                                         'signature': ['url', 'data', 'headers', 'origin_req_host', 'unverifiable', 'method']}},
              params={'self': IMPL(_cur_req_id=T.one_of(T.nat, T.none), _reqid_connection_part=T.str,
                                   _reqid_generator_guard=T.lock, address=T.str),
                      'adapters': T.const([]), 'path': T.str, 'method': T.one_of(T.none, T.const('GET')),
